@@ -320,6 +320,12 @@ func (c *Ctx) summaries(rule string) *core.Summaries {
 	R.Check(okMax && nStores == 1, rule, "invariant:MaxMessageSize>=1", "-", "the message limit is set once, at construction, to a positive value", "single store in NewReader, value proved >= 1 (parameter on its > 0 edge, else the default constant)", "MaxMessageSize is stored outside NewReader or its value is not provably >= 1")
 	s.MaxPositive = okMax && nStores == 1
 	s.FrameEnd = c.P.Method("buffer", "Writer", "End")
+	s.FrameEndSteps = map[*ssa.Function]bool{}
+	for fn := range c.endUnit() {
+		if fn != s.FrameEnd {
+			s.FrameEndSteps[fn] = true
+		}
+	}
 	c.sum = s
 	return s
 }
@@ -515,14 +521,40 @@ func (c *Ctx) slotAssertions(rule string) {
 				if mi, ok := kv.(*ssa.MakeInterface); ok {
 					kv = mi.X
 				}
+				// the slot: a constant key, or the key parameter of a private helper (every key its callers pass)
+				var keys []int64
 				k, ok := core.ConstInt(kv)
-				okAll, nW := ok, 0
-				for _, w := range writers {
-					if w.key != k {
-						continue
+				if ok {
+					keys = []int64{k}
+				} else if prm, isP := kv.(*ssa.Parameter); isP && !token.IsExported(fn.Name()) {
+					ok = len(c.argsOfParam(prm)) > 0
+					for _, a := range c.argsOfParam(prm) {
+						av := a.v
+						if mi, isMI := av.(*ssa.MakeInterface); isMI {
+							av = mi.X
+						}
+						if ak, isK := core.ConstInt(av); isK {
+							keys = append(keys, ak)
+						} else {
+							ok = false
+						}
 					}
-					nW++
-					if w.typ == nil || !types.Identical(w.typ, ta.AssertedType) {
+					n += len(keys) - 1
+				}
+				okAll, nW := ok, 0
+				for _, k := range keys {
+					nk := 0
+					for _, w := range writers {
+						if w.key != k {
+							continue
+						}
+						nW++
+						nk++
+						if w.typ == nil || !types.Identical(w.typ, ta.AssertedType) {
+							okAll = false
+						}
+					}
+					if nk == 0 {
 						okAll = false
 					}
 				}
@@ -565,4 +597,22 @@ func (c *Ctx) onlyCaller(fn *ssa.Function) ssa.CallInstruction {
 		}
 	}
 	return sites[0]
+}
+
+// endUnit returns Writer.End together with the private functions of pkg/buffer that only End calls (a flush step
+// split out of it): they run on the frame End was called for and are the only code that may touch the connection.
+func (c *Ctx) endUnit() map[*ssa.Function]bool {
+	out := map[*ssa.Function]bool{}
+	end := c.P.Method("buffer", "Writer", "End")
+	if end == nil {
+		return out
+	}
+	out[end] = true
+	for _, ci := range core.Calls(end) {
+		h := core.StaticCallee(ci)
+		if h != nil && c.P.InPkg(h, "buffer") && h.Blocks != nil && c.onlyCaller(h) == ci {
+			out[h] = true
+		}
+	}
+	return out
 }
